@@ -49,7 +49,103 @@ fn fixtures_for<B: Backend>(seed: u64) -> Value {
         "lid": lk.id().to_string(),
         "sid": sk.id().to_string(),
         "pid": pk.id().to_string(),
+        "corpus": corpus_for::<B>(seed),
     })
+}
+
+/// A corpus of inputs - valid, foreign-built and corrupted - with the FULL build's verdict on each.
+/// A reduced build that offers the operation must give exactly the same verdict.
+fn corpus_for<B: Backend>(seed: u64) -> Vec<Value> {
+    let ver = B::VER;
+    let ks = KeySeed::from_u64(seed);
+    let lk_raw = local_key_bytes(&ks);
+    let lk = local_key::<B>(&ks);
+    let sk_raw = secret_bytes(ver, &ks);
+    let sk = secret_key::<B>(&ks);
+    let pk = sk.public_key();
+    let pk_raw = key_bytes(&pk);
+    let wk_raw = local_key_bytes(&KeySeed::from_u64(seed ^ 0x55));
+    let wk = local_key::<B>(&KeySeed::from_u64(seed ^ 0x55));
+    let (pke_sk, _pke_pk, _, pke_pk_raw) = pke_pair::<B>(&ks);
+    let mut texts: Vec<(&'static str, String, String)> = Vec::new(); // (kind, how built, text)
+    let flip = |t: &str| -> String {
+        let mut v: Vec<char> = t.chars().collect();
+        let i = v.len().saturating_sub(6);
+        v[i] = if v[i] == 'A' { 'B' } else { 'A' };
+        v.into_iter().collect()
+    };
+    // --- public tokens
+    let lib_pub = UnsealedToken::<V<B>, Public, Raw>::new(Raw(MSG.to_vec())).with_footer(FOOTER.to_vec()).seal(&sk, &[]).unwrap().to_string();
+    texts.push(("public", "library".into(), lib_pub.clone()));
+    texts.push(("public", "library, one character changed".into(), flip(&lib_pub)));
+    texts.push(("public", "library, extra section".into(), format!("{lib_pub}.AAAA")));
+    if let Ok(pre) = model::public_preauth(ver, &model::pem_to_der(&pk_raw), MSG, FOOTER, &[]) {
+        let mut foreign: Vec<(String, Vec<u8>)> = Vec::new();
+        match ver {
+            model::Ver::V2 | model::Ver::V4 => {
+                if let Ok(s) = model::ed25519_sign(&sk_raw, &pre) {
+                    foreign.push(("libsodium".into(), s.to_vec()));
+                }
+            }
+            model::Ver::V3 => {
+                for (n, r) in [("aws-lc random k", model::p384_sign_awslc(&sk_raw, &pre)), ("p384 low S", model::p384_sign_rc(&sk_raw, &pre, false)), ("p384 high S", model::p384_sign_rc(&sk_raw, &pre, true))] {
+                    if let Ok(s) = r {
+                        foreign.push((n.into(), s));
+                    }
+                }
+            }
+            model::Ver::V1 => {
+                if let Ok(s) = model::rsa_pss_sign_awslc(&model::pem_to_der(&sk_raw), &pre) {
+                    foreign.push(("aws-lc PSS".into(), s));
+                }
+            }
+        }
+        for (n, sig) in foreign {
+            let t = model::public_assemble(ver, MSG, &sig, FOOTER);
+            texts.push(("public", format!("signed by {n}"), t.clone()));
+            let mut z = sig.clone();
+            let h = z.len() / 2;
+            z[..h].fill(0);
+            texts.push(("public", format!("signed by {n}, first half of the signature zeroed"), model::public_assemble(ver, MSG, &z, FOOTER)));
+        }
+    }
+    // --- local tokens
+    let lib_loc = UnsealedToken::<V<B>, Local, Raw>::new(Raw(MSG.to_vec())).with_footer(FOOTER.to_vec()).seal(&lk, &[]).unwrap().to_string();
+    texts.push(("local", "library".into(), lib_loc.clone()));
+    texts.push(("local", "library, one character changed".into(), flip(&lib_loc)));
+    for (n, draw) in [("zero nonce", vec![0u8; ver.local_draw_len()]), ("all-ones nonce", vec![0xff; ver.local_draw_len()])] {
+        if let Ok(t) = model::local_encrypt(ver, &lk_raw, &draw, MSG, FOOTER, &[]) {
+            texts.push(("local", format!("reference model, {n}"), t));
+        }
+    }
+    // --- PASERK blobs
+    let pie = lk.clone().wrap_pie(&wk).unwrap().to_string();
+    texts.push(("pie", "library".into(), pie.clone()));
+    texts.push(("pie", "library, one character changed".into(), flip(&pie)));
+    texts.push(("pie", "reference model, all-ones nonce".into(), model::pie_wrap(ver, "local", &wk_raw, &[0xff; 32], &lk_raw)));
+    let pw = lk.clone().password_wrap_with_params(PASSWORD, &pw_params::<B>(&cheapest_params(ver))).unwrap().to_string();
+    texts.push(("pw", "library".into(), pw.clone()));
+    texts.push(("pw", "library, one character changed".into(), flip(&pw)));
+    let (_, ppk, _, _) = pke_pair::<B>(&ks);
+    let sealed = lk.clone().seal(&ppk).unwrap().to_string();
+    texts.push(("seal", "library".into(), sealed.clone()));
+    texts.push(("seal", "library, one character changed".into(), flip(&sealed)));
+    let _ = pke_pk_raw;
+    // --- the full build's verdicts
+    let nv = NoValidation::dangerous_no_validation;
+    texts
+        .into_iter()
+        .map(|(kind, how, text)| {
+            let verdict: Result<Vec<u8>, paseto_core::PasetoError> = match kind {
+                "public" => text.parse::<SealedToken<V<B>, Public, Raw, Vec<u8>>>().and_then(|t| t.unseal(&pk, &[], &nv())).map(|u| u.claims.0),
+                "local" => text.parse::<SealedToken<V<B>, Local, Raw, Vec<u8>>>().and_then(|t| t.unseal(&lk, &[], &nv())).map(|u| u.claims.0),
+                "pie" => text.parse::<PieWrappedKey<V<B>, Local>>().and_then(|w| w.unwrap(&wk)).map(|k| key_bytes(&k)),
+                "pw" => text.parse::<PasswordWrappedKey<V<B>, Local>>().and_then(|w| w.unwrap(PASSWORD)).map(|k| key_bytes(&k)),
+                _ => text.parse::<SealedKey<V<B>>>().and_then(|w| w.unseal(&pke_sk)).map(|k| key_bytes(&k)),
+            };
+            json!({"kind": kind, "how": how, "text": text, "verdict": match verdict { Ok(b) => format!("ok:{}", hex::encode(b)), Err(_) => "err".to_string() }})
+        })
+        .collect()
 }
 
 pub fn fixtures(version: u8, seed: u64) -> Value {
